@@ -14,8 +14,16 @@ package main
 //     or an error, never a response with a hole.
 //   mux-dupid: a raw peer re-uses a call-req id that is still in flight: the library must
 //     answer with a protocol error frame; re-use after completion must be accepted.
-// With VERIF_RACE_CHILD set the engine runs the mux scenarios only (used by the thorough tier,
-// which rebuilds the harness with -race and runs it as a child process).
+//   Every second group of three mux scenarios runs with cancel propagation: PropagateCancel on the
+//     serving side (and on the relay), SendCancelOnContextCanceled on the callers, 3 callers in 10
+//     cancelling: cancel frames are handled while other calls of the connection complete.
+//   mux-rawcancel (engine_multiplex_cancel.go): a raw peer with many calls in flight on one
+//     connection sends cancel frames for live, finished and unknown ids.
+// Race detector (both tiers, engine_multiplex_cancel.go): the harness is rebuilt with -race (binary
+// cached under build/bin by a hash of the library and harness sources) and run as a child process
+// with VERIF_RACE_CHILD set: mux scenarios, mux-rawcancel, a hammer on one exchange set, a connection
+// churn, cancel frames crossing the final response in a relay, and the mex
+// scripts.  A race report or a runtime "concurrent map" fatal error in the child is a violation.
 
 import (
 	"bytes"
@@ -26,8 +34,6 @@ import (
 	"math/rand"
 	"net"
 	"os"
-	"os/exec"
-	"path/filepath"
 	"strings"
 	"sync"
 	"sync/atomic"
@@ -279,7 +285,7 @@ func firstDiff(a, b []byte) int {
 
 // ---------------------------------------------------------------- mux scenarios
 
-func muxScenario(rng *rand.Rand, topo string, ncalls int, tagBase uint64, o *Out) (verdict string, key string) {
+func muxScenario(rng *rand.Rand, topo string, ncalls int, tagBase uint64, cancelOn bool, o *Out) (verdict string, key string) {
 	var closers []func()
 	defer func() {
 		for i := len(closers) - 1; i >= 0; i-- {
@@ -289,7 +295,8 @@ func muxScenario(rng *rand.Rand, topo string, ncalls int, tagBase uint64, o *Out
 	csums := []tchannel.ChecksumType{tchannel.ChecksumTypeCrc32, tchannel.ChecksumTypeCrc32C, tchannel.ChecksumTypeFarmhash}
 	copts := func() *tchannel.ChannelOptions {
 		return &tchannel.ChannelOptions{Logger: tchannel.NullLogger,
-			DefaultConnectionOptions: tchannel.ConnectionOptions{ChecksumType: csums[rng.Intn(len(csums))]}}
+			DefaultConnectionOptions: tchannel.ConnectionOptions{ChecksumType: csums[rng.Intn(len(csums))],
+				PropagateCancel: cancelOn, SendCancelOnContextCanceled: cancelOn}}
 	}
 	server, err := tchannel.NewChannel("svc", copts())
 	if err != nil {
@@ -315,7 +322,8 @@ func muxScenario(rng *rand.Rand, topo string, ncalls int, tagBase uint64, o *Out
 	if topo == "relay" {
 		p2 := mkProxy(server.PeerInfo().HostPort)
 		rh := relaytest.NewStubRelayHost()
-		rly, err := tchannel.NewChannel("relay", &tchannel.ChannelOptions{RelayHost: rh, Logger: tchannel.NullLogger})
+		rly, err := tchannel.NewChannel("relay", &tchannel.ChannelOptions{RelayHost: rh, Logger: tchannel.NullLogger,
+			DefaultConnectionOptions: tchannel.ConnectionOptions{PropagateCancel: cancelOn}})
 		if err != nil {
 			return "harness: " + err.Error(), ""
 		}
@@ -364,7 +372,7 @@ func muxScenario(rng *rand.Rand, topo string, ncalls int, tagBase uint64, o *Out
 		switch x := rng.Intn(10); {
 		case x == 0:
 			mc.mode, mc.limitMs = 1, pick(rng, 1, 2, 5, 10, 20)
-		case x == 1:
+		case x == 1 || (cancelOn && x <= 3):
 			mc.mode, mc.limitMs = 2, pick(rng, 0, 1, 3, 8, 16)
 		}
 		mc.reverse = topo == "bidir" && rng.Intn(2) == 0
@@ -423,6 +431,9 @@ func muxScenario(rng *rand.Rand, topo string, ncalls int, tagBase uint64, o *Out
 		p.mu.Unlock()
 	}
 	o.Hist("topology=" + topo)
+	if cancelOn {
+		o.Hist("cancel-propagation=on")
+	}
 	o.Hist(fmt.Sprintf("calls=%d", (ncalls/8)*8))
 	o.Hist(fmt.Sprintf("connections-per-hop=%d", conns/len(proxies)))
 	if inter > 0 {
@@ -438,7 +449,7 @@ func muxScenario(rng *rand.Rand, topo string, ncalls int, tagBase uint64, o *Out
 		o.Sample(map[string]interface{}{"sub": "mux-" + topo, "calls": ncalls, "multi_frame_calls": multi, "timed_out_or_cancelled": failedExpected,
 			"frame_switches_between_calls": inter, "max_ids_in_flight": maxIn, "connections": conns})
 	}
-	return verdict, fmt.Sprint(topo, ncalls, order[0], multi, failedExpected)
+	return verdict, fmt.Sprint(topo, ncalls, order[0], multi, failedExpected, cancelOn)
 }
 
 // ---------------------------------------------------------------- mux-gap
@@ -715,16 +726,56 @@ func dupIDScenario(rng *rand.Rand, reuseAfterDone bool) string {
 
 func engineMultiplex(rng *rand.Rand, n int, tier string, o *Out) {
 	raceChild := os.Getenv("VERIF_RACE_CHILD") != ""
+	if !raceChild {
+		// the race-detector child runs first: if it reports a race the in-process scenarios are
+		// skipped (this process could die of the same race with a far less readable report)
+		muxN, mexN := 4, 40
+		if tier == "thorough" {
+			muxN, mexN = 12, 150
+		}
+		if c04RaceRun(rng.Int63(), muxN, mexN, o) {
+			return
+		}
+	}
 	topos := []string{"direct", "bidir", "relay"}
 	tagBase := uint64(1000)
 	for c := 0; c < n; c++ {
 		topo := topos[c%3]
 		ncalls := pick(rng, 4, 8, 12, 16, 24, 32)
-		v, key := muxScenario(rng, topo, ncalls, tagBase, o)
+		v, key := muxScenario(rng, topo, ncalls, tagBase, (c/3)%2 == 0, o)
 		tagBase += 100
 		o.Oracle("mux-"+topo, fmt.Sprintf("m%d", c), true, key, v)
 	}
+	for c := 0; c < n/6+2; c++ {
+		v, key := c04RawCancelScenario(rng)
+		if strings.HasPrefix(v, "harness:") {
+			fmt.Fprintln(os.Stderr, "mux-rawcancel:", v)
+			o.Hist("mux-rawcancel:harness-problem")
+			v = ""
+		}
+		o.Hist("mux-rawcancel")
+		o.Oracle("mux-rawcancel", fmt.Sprintf("c%d", c), true, fmt.Sprint(c, key), v)
+	}
 	if raceChild {
+		v := c04MexHammer(rng, 400*time.Millisecond)
+		o.Hist("mex-hammer")
+		o.Oracle("mex-hammer", "h0", true, "h0", v)
+		v = c04PeerChurn(rng, 400*time.Millisecond)
+		if strings.HasPrefix(v, "harness:") {
+			fmt.Fprintln(os.Stderr, "peer-churn:", v)
+			o.Hist("peer-churn:harness-problem")
+			v = ""
+		}
+		o.Hist("peer-churn")
+		o.Oracle("peer-churn", "p0", true, "p0", v)
+		v = c04RelayCancelCross(rng, 60)
+		if strings.HasPrefix(v, "harness:") {
+			fmt.Fprintln(os.Stderr, "relay-cancel-cross:", v)
+			o.Hist("relay-cancel-cross:harness-problem")
+			v = ""
+		}
+		o.Hist("relay-cancel-cross")
+		o.Oracle("relay-cancel-cross", "x0", true, "x0", v)
 		return
 	}
 	ngap := n/6 + 2
@@ -754,51 +805,22 @@ func engineMultiplex(rng *rand.Rand, n int, tier string, o *Out) {
 	}
 	for c := 0; c < 4; c++ {
 		v := dupIDScenario(rng, c%2 == 1)
+		if v != "" && c%2 == 1 && strings.Contains(v, "no response to call 2") {
+			// Re-use of an id right after its call completed can lose the second call through the known
+			// finding c04:stale-removal-by-id (the finished call's watcher goroutine runs inboundExpired
+			// late and removes the NEWER exchange registered under the same id): timing dependent.
+			// A failure that repeats 3 times out of 3 is not that: it stays an untagged violation.
+			again := 0
+			for t := 0; t < 3; t++ {
+				if dupIDScenario(rng, true) != "" {
+					again++
+				}
+			}
+			if again < 3 {
+				v = fmt.Sprintf("[c04:stale-removal-by-id] %s (timing dependent: %d of 3 repetitions passed)", v, 3-again)
+			}
+		}
 		o.Hist(fmt.Sprintf("mux-dupid:reuse-after-done=%v", c%2 == 1))
 		o.Oracle("mux-dupid", fmt.Sprintf("d%d", c), true, fmt.Sprint(c), v)
-	}
-	if tier == "thorough" {
-		raceRun(rng, n, o)
-	}
-}
-
-// raceRun rebuilds the harness with the race detector and runs the mux scenarios in it.
-// Supporting evidence only (data-race freedom is not a theorem of the model).
-func raceRun(rng *rand.Rand, n int, o *Out) {
-	build := filepath.Clean(filepath.Join(o.dir, "..", "..", ".."))
-	hd := filepath.Join(filepath.Dir(build), "harness")
-	bin := filepath.Join(build, "bin", "harness-race")
-	env := append(os.Environ(), "CGO_ENABLED=1", "GOFLAGS=-mod=mod", "GOPROXY=off", "GOSUMDB=off", "GOTOOLCHAIN=local")
-	cmd := exec.Command("go", "build", "-race", "-modfile", filepath.Join(build, "harness.mod"), "-tags", "verif",
-		"-overlay", filepath.Join(build, "overlay.json"), "-o", bin, ".")
-	cmd.Dir, cmd.Env = hd, env
-	if out, err := cmd.CombinedOutput(); err != nil {
-		o.Hist("race:build-unavailable")
-		fmt.Fprintln(os.Stderr, "race build failed:", err, string(out))
-		return
-	}
-	dir := filepath.Join(o.dir, "race")
-	os.MkdirAll(dir, 0o755)
-	for _, eng := range []string{"multiplex", "mex"} {
-		cnt := 12
-		if eng == "mex" {
-			cnt = 150
-		}
-		run := exec.Command(bin, eng, fmt.Sprint(rng.Intn(1000000)), fmt.Sprint(cnt), dir, "quick")
-		run.Env = append(env, "VERIF_RACE_CHILD=1", "GORACE=halt_on_error=0")
-		out, err := run.CombinedOutput()
-		verdict := ""
-		if i := bytes.Index(out, []byte("WARNING: DATA RACE")); i >= 0 {
-			end := i + 3000
-			if end > len(out) {
-				end = len(out)
-			}
-			verdict = "race detector report while running the " + eng + " scenarios: " + strings.ReplaceAll(string(out[i:end]), "\n", " | ")
-		} else if err != nil {
-			fmt.Fprintln(os.Stderr, "race child:", err, string(out[max(0, len(out)-2000):]))
-			o.Hist("race:child-failed")
-		}
-		o.Hist("race:" + eng)
-		o.Oracle("race-"+eng, "r-"+eng, true, eng, verdict)
 	}
 }
